@@ -53,6 +53,18 @@ CLAIMED = {
               'TIF chain, returned positions, payload), read-back and strip_tif are validated by TLC against LisPhysTrace.'),
         note='Trusts TLC, the independent renderer/parser in harness/gen/lis.py and the bytes->range projection; n >= 1 reads.',
         technique='TLA+ spec + TLC model checking over all operation sequences; TLC trace validation of reader/writer histories'),
+    'C18': dict(
+        category='model_checking', design='3/C18',
+        text=('TLC checks the XmlStream API machine with character-class encoding (XmlStream.tla) for every call sequence '
+              'up to 3/4 calls: the token stream always parses (WellFormed) into exactly the implied events (Faithful); every '
+              'closed behaviour is replayed on the real XmlStream/XhtmlStream/Element with concrete characters and parsed '
+              'back by expat and lxml; every code point (quick: 0..0x2FF + boundaries + 3000 random; thorough: whole BMP + '
+              'astral sample) is swept in text and attribute position; the API-call streams of real document writers are '
+              'captured in-process and validated with the parsed document by TLC against XmlStreamTrace.tla.'),
+        note=('Trusts expat/lxml as judges of well-formedness. Known finding F7 (illegal character references) is listed in '
+              'known_findings.json; affected documents are judged after replacing exactly those references. Writers covered so '
+              'far: XmlStream itself, LASToHTML; RP66V1 XML index / HTML and LIS HTML are added with their generators.'),
+        technique='TLA+ spec + TLC model checking; replay of every model behaviour; TLC trace validation of writer call streams'),
 }
 
 NOT_YET = 'check not built yet in this session; planned per DESIGN.md section 3'
